@@ -47,6 +47,25 @@ def justify(prog):
     return j
 
 
+def _add_operands(fn, op):
+    """(a, b) operands when `op` is (a copy of) the result of `a + b` (checked or not), else None"""
+    p = A.op_place(op)
+    seen = set()
+    while p is not None and p["l"] not in seen:
+        seen.add(p["l"])
+        sd = fn.single_def(p["l"])
+        if sd is None or sd[2] != "assign":
+            return None
+        rv = fn.blocks[sd[0]]["stmts"][sd[1]]["rv"]
+        if rv["k"] == "bin" and rv["op"] in ("Add", "AddWithOverflow", "AddUnchecked"):
+            return rv["a"], rv["b"]
+        if rv["k"] == "use" and A.op_place(rv["op"]) is not None:
+            p = A.op_place(rv["op"])
+            continue
+        return None
+    return None
+
+
 def run(ctx):
     prog = ctx.prog
     ctx.rule("C03.1", "every panic-capable site reachable from Message::from_octets is discharged (bounds by dominating comparisons on the same cursor, range-loop indices, justified unwraps)")
@@ -171,8 +190,9 @@ def run(ctx):
     ctx.floor("C03.3", "compression-pointer hops in DomainName::deserialise", len(hops), 1)
     ctx.check(len(A.who_calls(prog, CB + "at_offset")) == len(hops), "C03.3", "at_offset:callers", "cursors are re-positioned only when following a compression pointer",
               "at_offset is also called from %s" % sorted({A.short(f.key) for f, b, t in A.who_calls(prog, CB + "at_offset")}))
-    start_names = [l for l, n in wd.names.items() if n == "start"]
-    ctx.check(len(start_names) == 1, "C03.3", "start-register", "one `start` register", "no unique `start` local in DomainName::deserialise", wd.loc())
+    # the register holding "where the name being read begins": the user variable initialised from the cursor's position
+    start_names = [l for l in A.locals_defined_as(wd, wr, lambda e: A.path_str(e) == "param2.position") if wd.locals[l].get("user")]
+    ctx.check(len(start_names) == 1, "C03.3", "start-register", "one register initialised from the cursor position before anything is read", "no unique start-of-name register in DomainName::deserialise (%d)" % len(start_names), wd.loc())
     start_l = start_names[0] if start_names else None
     sdefs = wd.defs().get(start_l, []) if start_l is not None else []
     first_mut = [bb for bb, tt in wd.calls() if any(A.op_place(a) is not None and wd.local_ty(A.op_place(a)["l"]).startswith("&mut dns_types::protocol::deserialise::ConsumableBuffer") for a in tt["args"])]
@@ -304,17 +324,31 @@ def run(ctx):
             return False
         ok, edges = rc.guarded(b, rd_eq)
         ctx.check(ok, "C03.6", "rr:rdlength-exact", "Ok(record) only if position after RDATA == position before + RDLENGTH", "RDLENGTH is not checked against the bytes consumed", rrd.loc(b, i))
-    names_ = {n: l for l, n in rrd.names.items()}
-    for nm in ("rdata_start", "rdata_stop", "rdlength"):
-        ctx.check(nm in names_, "C03.6", "rr:var:" + nm, "found " + nm, "RDATA bookkeeping variable %s missing" % nm, rrd.loc())
-    if all(n in names_ for n in ("rdata_start", "rdata_stop", "rdlength")):
-        sdef = rrd.single_def(names_["rdata_start"])
-        edef = rrd.single_def(names_["rdata_stop"])
-        ldef = rrd.single_def(names_["rdlength"])
+    # the three bookkeeping variables, found by their role in `stop == start + rdlength` (whatever they are called)
+    window = None
+    for b_, i_, st_ in rrd.assigns():
+        rv = st_["rv"]
+        if rv["k"] != "bin" or rv["op"] != "Eq":
+            continue
+        for xa, xb in ((rv["a"], rv["b"]), (rv["b"], rv["a"])):
+            stop_l = A.root_local(rrd, xa)
+            add = _add_operands(rrd, xb)
+            if stop_l is not None and add is not None:
+                start_l2, len_l = A.root_local(rrd, add[0]), A.root_local(rrd, add[1])
+                if None not in (start_l2, len_l) and len({stop_l, start_l2, len_l}) == 3:
+                    window = (start_l2, stop_l, len_l)
+    ctx.check(window is not None, "C03.6", "rr:window-variables", "found the variables of `stop == start + rdlength`", "no `stop == start + rdlength` comparison over three variables in ResourceRecord::deserialise", rrd.loc())
+    if window is not None:
+        sl, el, ll = window
+        sdef, edef, ldef = rrd.single_def(sl), rrd.single_def(el), rrd.single_def(ll)
         rdata_reads = [b for b, i, st in A.aggregates(rrd, codec.RTWD)]
         ok = sdef and edef and ldef and all(rrd.dominates(sdef[0], x) for x in rdata_reads) and all(edef[0] in rrd.reachable(x) for x in rdata_reads) \
-            and A.path_str(rr.local(names_["rdata_start"], (0, 0)), open_root=True).endswith("position") and A.path_str(rr.local(names_["rdata_stop"], (0, 0)), open_root=True).endswith("position")
-        lsrc = codec.untry(rr.local(names_["rdlength"], (0, 0)))
+            and A.path_str(rr.local(sl, (0, 0)), open_root=True).endswith("position") and A.path_str(rr.local(el, (0, 0)), open_root=True).endswith("position")
+        lsrc = codec.untry(rr.local(ll, (0, 0))) if ok else ("?",)
+        if lsrc[0] == "cast":
+            lsrc = codec.untry(lsrc[1])
+        if lsrc[0] == "call" and (lsrc[4] or lsrc[1]).endswith("From::from") and lsrc[2]:
+            lsrc = codec.untry(lsrc[2][0])
         ok = ok and lsrc[0] == "call" and lsrc[1] == CB + "next_u16"
         ctx.check(bool(ok), "C03.6", "rr:rdata-window", "start/stop are the cursor before/after the RDATA region; rdlength is the u16 read before it", "RDATA window bookkeeping changed", rrd.loc())
 
